@@ -7,10 +7,12 @@ import (
 	"strings"
 
 	"github.com/iotaledger/iota.go/consts"
+	igb1t6 "github.com/iotaledger/iota.go/encoding/b1t6"
 	"github.com/wollac/iota-crypto-demo/pkg/bech32"
 	"github.com/wollac/iota-crypto-demo/pkg/bech32/address"
 	"github.com/wollac/iota-crypto-demo/pkg/ed25519"
 	"github.com/wollac/iota-crypto-demo/pkg/migration"
+	"golang.org/x/crypto/blake2b"
 )
 
 var addrHRPs = []string{"iota", "atoi", "smr", "rms"}
@@ -213,6 +215,21 @@ func genC19(g *G) {
 		bad2 := append([]byte(nil), t...)
 		bad2[20] = '8'
 		g.emit("mig.dec", hx(bad2))
+		// framing variants (seeded change C19-e): 81-tryte strings whose PARTS are valid — the address trytes followed by
+		// the trytes of more (or fewer) hash bytes than the format has, with only one of prefix and suffix, or neither; a
+		// decoder that locates the parts relative to whatever it trimmed accepts some of them
+		sum := blake2b.Sum256(a[:])
+		long := igb1t6.EncodeToTrytes(append(append([]byte(nil), a[:]...), sum[:]...)) // 64 + 64 trytes
+		for _, v := range []string{
+			long[:80] + "9",               // no prefix: address, 8 checksum bytes, suffix
+			long[:81],                     // neither
+			"TRANSFER" + long[:73],        // no suffix
+			"TRANSFER" + long[:70] + "99", // short checksum, padded
+			long[:72] + "TRANSFER" + "9",  // prefix in the wrong place
+			"9" + long[:72] + "TRANSFER",
+		} {
+			g.emit("mig.dec", hx([]byte(v)))
+		}
 	}
 	g.emit("mig.dec", hx(nil))
 	g.emit("mig.dec", hx([]byte(strings.Repeat("9", 81))))
